@@ -106,7 +106,9 @@ const SIGS: [(&str, Option<Number>); 9] = [
 /// conditions the `trap` / `raise` ops range over (TSTP is only watched: raising it would stop the process)
 const OP_SIGS: [&str; 6] = ["EXIT", "INT", "QUIT", "TERM", "URG", "USR1"];
 const FILES: [&str; 2] = ["f1", "f2"];
-const FDS: [&str; 3] = ["3", "4", "5"];
+/// fd 20 is there to sit above a lowered RLIMIT_NOFILE
+const FDS: [&str; 4] = ["3", "4", "5", "20"];
+const LIMITS: [&str; 3] = ["16", "18", "unlimited"];
 const KINDS: [&str; 6] = ["paren", "subst", "pipeF", "pipeM", "pipeL", "async"];
 const TRACKED_VARS: [&str; 5] = ["va", "vb", "vc", "PWD", "OLDPWD"];
 const TRACKED_FUNS: [&str; 3] = ["F1", "F2", "lf"];
@@ -257,7 +259,10 @@ fn render_op(t: &[String]) -> Option<String> {
         ("raise", 2) if (is_in(a(1)?, &OP_SIGS) && t[1] != "EXIT") || t[1] == "KILL" => format!("selfsig {}", t[1]),
         // a background job that never finishes (the FIFO is never opened for writing)
         // (stdout is redirected so that the job does not hold the write end of a pipeline / command substitution)
-        ("bg", 1) => "{ exec >|/dev/null 3>&- 4>&- 5>&-; cat </o/fifo; } &".to_string(),
+        ("bg", 1) => "{ exec >|/dev/null 3>&- 4>&- 5>&- 20>&-; cat </o/fifo; } &".to_string(),
+        // the soft RLIMIT_NOFILE of the shell process; 16 is the lowest value under which the sweep's own commands still
+        // work (the `bg` rendering saves up to five descriptors at 10.. while its redirections are performed, plus the tty)
+        ("nofile", 2) if is_in(a(1)?, &LIMITS) => format!("ulimit -S -n {}", t[1]),
         ("exit", 2) if is_in(a(1)?, &["0", "3", "7"]) => format!("exit {}", t[1]),
         _ => return None,
     })
@@ -265,7 +270,7 @@ fn render_op(t: &[String]) -> Option<String> {
 
 fn snap(tag: &str, with_trap: bool) -> String {
     format!(
-        "echo @S:{tag}\ntypeset -gp\necho @f\ntypeset -fp\necho @a\nalias\necho @o\nset +o\necho @u\numask\n\
+        "echo @S:{tag}\ntypeset -gp\necho @f\ntypeset -fp\necho @a\nalias\necho @o\nset +o\necho @u\numask\necho @l\nulimit -S -n\n\
          echo @t\n{}echo @p\nprobe P \"$@\"\necho @j\njobs -l\nprobe X \"${{!-}}\"\necho @s\nsysprobe\necho @.",
         if with_trap { "trap\n" } else { "" }
     )
@@ -447,6 +452,8 @@ struct Snap {
     aliases: String,
     opts: String,
     umask: String,
+    /// soft RLIMIT_NOFILE as `ulimit -S -n` prints it
+    limit: String,
     traps: BTreeMap<String, String>,
     params: String,
     cwd: String,
@@ -574,6 +581,7 @@ fn finish_snap(tag: &str, secs: &BTreeMap<String, Vec<String>>) -> Snap {
     on.sort();
     sn.opts = on.join(",");
     sn.umask = sec("u").join("|");
+    sn.limit = sec("l").join("|");
     // traps
     for l in sec("t") {
         let mut tracked = false;
@@ -672,12 +680,13 @@ fn finish_snap(tag: &str, secs: &BTreeMap<String, Vec<String>>) -> Snap {
     };
     sn.rest = rest;
     sn.tracked_nojobs = format!(
-        "v={} f={} a={} o={} u={} t={} p={} {}",
+        "v={} f={} a={} o={} u={} l={} t={} p={} {}",
         sn.vars,
         sn.funs,
         sn.aliases,
         sn.opts,
         sn.umask,
+        sn.limit,
         show_map(&sn.traps),
         sn.params,
         sys_canon(&sn.cwd, &sn.sys_umask, &sn.fds, &sn.disp)
@@ -777,8 +786,10 @@ fn run_raw(script: &str, args: Vec<String>, su: &Setup) -> (shell::Outcome, Opti
             env.builtins.insert("sysprobe", Builtin::new(Type::Mandatory, sysprobe_main));
             env.builtins.insert("selfsig", Builtin::new(Type::Mandatory, selfsig_main));
             // the snapshot uses `typeset`, which the `portable` option would refuse as an extension
-            if let Some(b) = env.builtins.get_mut("typeset") {
-                b.r#type = Type::Mandatory;
+            for name in ["typeset", "ulimit"] {
+                if let Some(b) = env.builtins.get_mut(name) {
+                    b.r#type = Type::Mandatory;
+                }
             }
             let mut st = state.borrow_mut();
             for p in ["/d1/s/keep", "/d2/keep", "/o/in", "/dev/null"] {
@@ -957,6 +968,7 @@ fn oracle(c: &Case, r: &Run, control: Option<&Run>) -> String {
             ("options", &b.opts, &ch.opts),
             ("params", &b.params, &ch.params),
             ("umask", &b.umask, &ch.umask),
+            ("nofile-limit", &b.limit, &ch.limit),
             ("sys-umask", &b.sys_umask, &ch.sys_umask),
             ("cwd", &b.cwd, &ch.cwd),
             ("jobs", &b.jobs, &ch.jobs),
@@ -1075,6 +1087,7 @@ fn diff_fields(x: &Snap, y: &Snap) -> Vec<&'static str> {
         ("options", &x.opts, &y.opts),
         ("params", &x.params, &y.params),
         ("umask", &x.umask, &y.umask),
+        ("nofile-limit", &x.limit, &y.limit),
         ("sys-umask", &x.sys_umask, &y.sys_umask),
         ("cwd", &x.cwd, &y.cwd),
         ("rest", &x.rest, &y.rest),
@@ -1147,6 +1160,8 @@ struct Abs {
     portable: bool,
     /// the `errexit` option is on
     errexit: bool,
+    /// the soft RLIMIT_NOFILE is below 20
+    limited: bool,
     /// defined aliases
     aliases: Vec<String>,
     /// condition -> 'd' | 'i' | 'c'
@@ -1242,7 +1257,16 @@ fn gen_op(rng: &mut Rng, abs: &mut Abs, fam: usize, phase: char) -> Option<Strin
             format!("trap {s} {a}")
         }
         13 => {
-            let fd = pick(rng, &FDS);
+            let mut fd = pick(rng, &FDS);
+            // a descriptor at or above the soft limit cannot be opened (it can still be closed)
+            if fd == "20" && abs.limited && rng.chance(3, 4) {
+                fd = "3";
+            }
+            if fd == "20" && abs.limited {
+                abs.open.retain(|x| x != fd);
+                abs.ronly.retain(|x| x != fd);
+                return Some(format!("fdc {fd}"));
+            }
             match rng.below(4) {
                 0 => {
                     abs.open.retain(|x| x != fd);
@@ -1283,6 +1307,11 @@ fn gen_op(rng: &mut Rng, abs: &mut Abs, fam: usize, phase: char) -> Option<Strin
                 return None;
             }
             "bg".to_string()
+        }
+        16 => {
+            let l = pick(rng, &LIMITS);
+            abs.limited = l != "unlimited";
+            format!("nofile {l}")
         }
         14 => {
             if phase == 'W' {
@@ -1398,7 +1427,7 @@ fn gen_case(rng: &mut Rng, pro_fams: &[usize], kinds: &[&str], child_fams: &[usi
     parts.join("; ")
 }
 
-const NFAM: usize = 16;
+const NFAM: usize = 17;
 
 /// A mutator family for the prologue (uniform over all families).
 fn pro_fam(rng: &mut Rng) -> usize {
@@ -1569,6 +1598,50 @@ fn main() {
                     parts.push(format!("C:raise {sig}"));
                     cases.push(parts.join("; "));
                 }
+            }
+        }
+    }
+    // (1d) an open descriptor ABOVE a lowered soft RLIMIT_NOFILE: a fork copies every open descriptor whatever
+    // the limit, so every kind of subshell must enter with fd 20 (and with the lowered limit)
+    {
+        let mut nests: Vec<Vec<&str>> = KINDS.iter().map(|k| vec![*k]).collect();
+        for (i, a) in KINDS.iter().enumerate() {
+            for (j, b) in KINDS.iter().enumerate() {
+                nests.push(vec![a, b]);
+                if o.thorough() || (i + j) % 3 == 0 {
+                    nests.push(vec![a, b, KINDS[(i + j + 1) % nk]]);
+                }
+            }
+        }
+        for (n, kinds) in nests.iter().enumerate() {
+            for lim in ["16", "18"] {
+                let mut parts: Vec<String> = vec![];
+                if n % 4 == 1 {
+                    parts.push("T:1".into());
+                    parts.push("P:opt+ monitor".into());
+                }
+                parts.push(format!("P:{}", ["fdw 20 f1", "fdr 20", "fdd 20 2", "fdw 20 f2"][n % 4]));
+                if n % 3 == 0 {
+                    parts.push("P:fdw 4 f2".into());
+                }
+                parts.push(format!("P:nofile {lim}"));
+                for k in kinds {
+                    parts.push(format!("K:{k}"));
+                }
+                let mut abs = Abs { limited: true, open: vec!["20".into()], ..Default::default() };
+                if n % 4 == 1 {
+                    abs.ronly.push("20".into());
+                }
+                if let Some(op) = gen_op(&mut rng, &mut abs, n % NFAM, 'C') {
+                    parts.push(format!("C:{op}"));
+                }
+                if n % 5 == 0 {
+                    parts.push("C:fdc 20".into());
+                }
+                if n % 7 == 0 {
+                    parts.push("C:nofile unlimited".into());
+                }
+                cases.push(parts.join("; "));
             }
         }
     }
